@@ -104,6 +104,8 @@ type TxRecord struct {
 	Signer *Actor
 	Msgs   []sdk.Msg
 	Fee    sdk.Coins
+	Num    uint64
+	Seq    uint64
 	Tag    string
 	Result *abci.ExecTxResult
 }
@@ -503,7 +505,7 @@ func (w *World) TxFee(ac *Actor, fee sdk.Coins, msgs ...sdk.Msg) *TxRecord {
 		panic(err)
 	}
 	ac.Seq++
-	return &TxRecord{Raw: raw, Signer: ac, Msgs: msgs, Fee: fee}
+	return &TxRecord{Raw: raw, Signer: ac, Msgs: msgs, Fee: fee, Num: ac.Num, Seq: ac.Seq - 1}
 }
 
 // FeedTx builds the default feeder's price transaction (nil if every asset is silent).
